@@ -372,7 +372,7 @@ func genPattern(name string) *rapid.Generator[string] {
 			k := rapid.IntRange(0, 9).Draw(t, "tk")
 			switch {
 			case k < 5:
-				toks = append(toks, rapid.SampledFrom([]string{"a", "b"}).Draw(t, "lit"))
+				toks = append(toks, rapid.SampledFrom([]string{"a", "b", "ab"}).Draw(t, "lit")) // "a" is a string prefix of "ab"
 			case k < 8:
 				toks = append(toks, "*")
 			default:
